@@ -38,7 +38,7 @@ def load_all():
 def _verify_one(args):
     idx, is_lemma, tier = args
     C = load_all()
-    c = C.LEMMAS[idx] if is_lemma else list(C.REGISTRY.values())[idx]
+    c = C.LEMMAS[idx] if is_lemma else C.all_contracts()[idx]
     tmo = 10000 if tier == 'quick' else 60000
     rep = C.verify_contract(c, timeout_ms=tmo)
     obs = []
@@ -61,7 +61,7 @@ def _verify_one(args):
 def run_proofs(pid, tier):
     C = load_all()
     jobs = []
-    for i, c in enumerate(C.REGISTRY.values()):
+    for i, c in enumerate(C.all_contracts()):
         if pid in c.props:
             jobs.append((i, False, tier))
     for i, c in enumerate(C.LEMMAS):
